@@ -140,7 +140,7 @@ theorem compile_roundtrip (main : Nat) (evs : List LexEvN) (ems : List (Nat × N
       cases hx : psizeRejects off (((ems.map (·.2)).sum : Nat) : Int) with
       | false => rfl
       | true => have := (psizeRejects_iff _ _).1 hx; omega
-    simp only [Bool.false_eq_true, if_false, hng, hf]
+    simp only [Bool.false_eq_true, if_false, hng, hf, scan_unbounded, Bool.false_and]
     cases hfi : (lexFinish (lexRunN (initN main) evs).lex).fi with
     | nil => exact absurd hfi (lexFinish_fi_ne_nil _)
     | cons s0 rest =>
